@@ -993,6 +993,10 @@ func c18DefaultMonitorRound(ctx *Ctx, r *rand.Rand, rd int) {
 				if r.Intn(3) == 0 {
 					metrics.ResetMetrics()
 					ctx.R.Path("default-collector-resets", 1)
+				} else if r.Intn(3) == 0 {
+					metrics.EnablePerformanceMonitoring(false)
+					metrics.EnablePerformanceMonitoring(true)
+					ctx.R.Path("monitor-paused-and-resumed", 1)
 				}
 			}
 		}
@@ -1028,6 +1032,19 @@ func c18SeqMonitorRound(ctx *Ctx, r *rand.Rand, rd int) {
 		var rep metrics.PerformanceReport
 		if ctx.R.Guard("C18", "PerformanceMonitor.GetPerformanceReport", cs, func() { rep = pm.GetPerformanceReport() }) {
 			c18CheckReport(ctx, "PerformanceMonitor", false, rep, x, fmt.Sprintf("shard %d round %d after batch %d", ctx.Shard, rd, b), once)
+		}
+		if r.Intn(2) == 0 {
+			// monitoring paused and resumed with nothing recorded in between: what was recorded before stays counted
+			ctx.R.Guard("C18", "PerformanceMonitor.Enable", cs, func() {
+				for k := 1 + r.Intn(2); k > 0; k-- {
+					pm.Enable(false)
+					pm.Enable(true)
+				}
+			})
+			ctx.R.Path("monitor-paused-and-resumed", 1)
+			if ctx.R.Guard("C18", "PerformanceMonitor.GetPerformanceReport", cs, func() { rep = pm.GetPerformanceReport() }) {
+				c18CheckReport(ctx, "PerformanceMonitor", false, rep, x, fmt.Sprintf("shard %d round %d after batch %d and Enable(false); Enable(true)", ctx.Shard, rd, b), once)
+			}
 		}
 	}
 }
@@ -1095,6 +1112,11 @@ func c18SeqMDBRound(ctx *Ctx, r *rand.Rand, rd int) {
 			}
 			c18MDBSearch(r, d, x)
 			ctx.R.Path("monitor-search-ops", 1)
+			if r.Intn(15) == 0 {
+				d.mdb.EnableMonitoring(false)
+				d.mdb.EnableMonitoring(true)
+				ctx.R.Path("monitor-paused-and-resumed", 1)
+			}
 		}
 	})
 	ctx.R.Eval(int64(k + j))
@@ -1485,11 +1507,108 @@ func c18ConcMDBRound(ctx *Ctx, r *rand.Rand, rd, G, K int) {
 	}
 }
 
+// c18ConcDistinctRound: every goroutine registers series of its OWN (per-worker, per-query tags: distinct identities of one
+// name) while the others register theirs, records through the handle it got, and after Wait every identity is looked up again:
+// same object, every recorded event in it, and in the export.
+func c18ConcDistinctRound(ctx *Ctx, rd, G, S int) {
+	cs := map[string]interface{}{"part": "collector/distinct-series-registered-concurrently", "round": rd, "goroutines": G, "series_per_goroutine_and_kind": S}
+	ctx.R.Begin(cs)
+	col := metrics.NewCollector()
+	tag := func(g, i int) map[string]string {
+		return map[string]string{"worker": fmt.Sprint(g), "item": fmt.Sprint(i)}
+	}
+	type handles struct {
+		c []*metrics.Counter
+		h []*metrics.Histogram
+		g []*metrics.Gauge
+		t []*metrics.Timer
+	}
+	hs := make([]handles, G)
+	bar := c18NewBarrier(G, S)
+	var wg sync.WaitGroup
+	for g := 0; g < G; g++ {
+		wg.Add(1)
+		go func(g int) {
+			defer wg.Done()
+			defer c18Recover(ctx, bar, "conc/Collector/distinct-series", cs)
+			h := &hs[g]
+			for i := 0; i < S; i++ {
+				bar.wait(i)
+				c := col.Counter("distinct_c", tag(g, i))
+				c.Add(5)
+				h.c = append(h.c, c)
+				hi := col.Histogram("distinct_h", tag(g, i))
+				hi.Observe(2)
+				hi.Observe(3)
+				h.h = append(h.h, hi)
+				ga := col.Gauge("distinct_g", tag(g, i))
+				ga.Add(7)
+				h.g = append(h.g, ga)
+				ti := col.Timer("distinct_t", tag(g, i))
+				ti.Histogram().Observe(1)
+				h.t = append(h.t, ti)
+			}
+		}(g)
+	}
+	wg.Wait()
+	ctx.R.Eval(int64(G * S * 4))
+	ctx.R.Path("concurrent-ops", int64(G*S*4))
+	bad := 0
+	vio := func(clause, kind string, g, i int, detail string) {
+		bad++
+		if bad > 3 {
+			return
+		}
+		ctx.R.Violate(vlib.Violation{Property: "C18", Clause: clause, Path: "conc/Collector." + kind + "/distinct-series",
+			Detail: fmt.Sprintf("series {worker=%d,item=%d} registered by goroutine %d while %d others registered theirs: %s", g, i, g, G-1, detail), Witness: cs})
+	}
+	ctx.R.Guard("C18", "conc/Collector/distinct-series", cs, func() {
+		for g := 0; g < G; g++ {
+			if len(hs[g].c) != S {
+				continue // the goroutine stopped early (reported)
+			}
+			for i := 0; i < S; i++ {
+				if c := col.Counter("distinct_c", tag(g, i)); c != hs[g].c[i] {
+					vio("identity-split", "Counter", g, i, fmt.Sprintf("a later lookup returns another counter (value %d; the first one holds %d)", c.Value(), hs[g].c[i].Value()))
+				} else if v := c.Value(); v != 5 {
+					vio("counter-total-lost", "Counter", g, i, fmt.Sprintf("Value() = %d after Add(5)", v))
+				}
+				if h := col.Histogram("distinct_h", tag(g, i)); h != hs[g].h[i] {
+					vio("identity-split", "Histogram", g, i, fmt.Sprintf("a later lookup returns another histogram (count %d; the first one holds %d)", h.Count(), hs[g].h[i].Count()))
+				} else if h.Count() != 2 || h.Sum() != 5 {
+					vio("histogram-total-lost", "Histogram", g, i, fmt.Sprintf("Count() = %d, Sum() = %v after observing 2 and 3", h.Count(), h.Sum()))
+				}
+				if ga := col.Gauge("distinct_g", tag(g, i)); ga != hs[g].g[i] {
+					vio("identity-split", "Gauge", g, i, "a later lookup returns another gauge")
+				}
+				if ti := col.Timer("distinct_t", tag(g, i)); ti != hs[g].t[i] {
+					vio("identity-split", "Timer", g, i, "a later lookup returns another timer")
+				}
+			}
+		}
+		total, series := 0.0, 0
+		for _, m := range col.GetAllMetrics() {
+			if m.Name == "distinct_c" {
+				total += m.Value
+				series++
+			}
+		}
+		if want := float64(5 * G * S); bad == 0 && (total != want || series != G*S) {
+			vio("series-total-lost", "GetAllMetrics", 0, 0, fmt.Sprintf("the export lists %d counters of that name summing to %v; %d were registered and %v added", series, total, G*S, want))
+		}
+	})
+	ctx.R.Path("distinct-series-registered-concurrently", int64(G*S*4))
+	if bad == 0 {
+		ctx.R.Nontriv("c18-distinct", ctx.Seed, ctx.Shard, rd)
+	}
+}
+
 func engineC18Conc(ctx *Ctx) {
 	r := vlib.NewRand(ctx.Seed, ctx.Shard, "metrics-conc")
 	rounds := ctx.N(32, 960)
 	for rd := 0; rd < rounds; rd++ {
 		G := []int{2, 4, 8, 16}[(rd+ctx.Shard)%4]
+		c18ConcDistinctRound(ctx, rd, G, 40+r.Intn(80))
 		c18ConcCollectorRound(ctx, r, rd, G, 120+r.Intn(120))
 		c18ConcMonitorRound(ctx, r, rd, G, 80+r.Intn(80))
 		if rd%2 == 0 {
